@@ -159,7 +159,11 @@ class SymStructure(Structure, coords_dtype=object):
 
 # (label, centre, neighbour elements, hydrogens expected): chemistry concrete, every coordinate symbolic
 CASES = [("O-F +1H", "O", ["F"], 1), ("N-F +2H", "N", ["F"], 2), ("C-F +3H", "C", ["F"], 3), ("N(F)F +1H", "N", ["F", "F"], 1), ("C(F)F +2H", "C", ["F", "F"], 2),
-         ("C(F)(F)F +1H", "C", ["F", "F", "F"], 1), ("lone O +2H", "O", [], 2), ("lone N +3H", "N", [], 3), ("lone C +4H", "C", [], 4)]
+         ("C(F)(F)F +1H", "C", ["F", "F", "F"], 1), ("lone O +2H", "O", [], 2), ("lone N +3H", "N", [], 3), ("lone C +4H", "C", [], 4),
+         # one neighbour exactly along a coordinate axis at a fixed distance from a symbolic atom position: the REAL rotation code runs, including its
+         # branch for (nearly) opposite vectors
+         ("C-F(-z) +3H", "C", ["F"], 3, [(0.0, 0.0, -1.5)]), ("C-F(+z) +3H", "C", ["F"], 3, [(0.0, 0.0, 1.5)]), ("C-F(-x) +3H", "C", ["F"], 3, [(-1.5, 0.0, 0.0)]),
+         ("N-F(-z) +2H", "N", ["F"], 2, [(0.0, 0.0, -1.5)])]
 
 
 CUR = {}
@@ -169,12 +173,29 @@ def _concrete(x):
     return all(not isinstance(v, SR) for v in np.asarray(x, dtype=object).ravel())
 
 
+def _constants(x):
+    """a vector of symbolic reals whose components simplify to rational constants (a neighbour at a fixed offset from a symbolic atom) as floats, else None"""
+    out = []
+    for v in np.asarray(x, dtype=object).ravel():
+        if isinstance(v, SR):
+            e = z3.simplify(v.e)
+            if not z3.is_rational_value(e):
+                return None
+            out.append(e.numerator_as_long() / e.denominator_as_long())
+        else:
+            out.append(float(v))
+    return np.array(out, dtype=float)
+
+
 def rmfv_contract(u, v, tol=1e-8):
     """contract of rotation_matrix_from_vectors (discharged on the real function by C11): an orthogonal matrix of determinant 1 that maps u/|u| to
     v/|v| (nine unknowns with M Mt = Mt M = I, det M = 1: the goals here are about images of fixed vectors, for which this form decides in < 1 s).
     With concrete arguments the real function runs."""
     if _concrete(u) and _concrete(v):
         return ORIG_RMFV(np.asarray(u, dtype=float), np.asarray(v, dtype=float), tol)
+    cu, cv = _constants(u), _constants(v)
+    if cu is not None and cv is not None:
+        return ORIG_RMFV(cu, cv, tol)                    # constant direction: the real function runs (also its nearly-opposite branch)
     u, v = np.array(u, dtype=object), np.array(v, dtype=object)
     M = sr.mat("rm", 3, 3)
     MMt, MtM = M @ M.T, M.T @ M
@@ -204,7 +225,8 @@ def mean_plane_contract(pts):
 
 
 def g_place(ci):
-    label, centre, nbrs, hs = CASES[ci]
+    label, centre, nbrs, hs = CASES[ci][:4]
+    offsets = CASES[ci][4] if len(CASES[ci]) > 4 else None
 
     def f():
         saved_math = ROT.math
@@ -215,7 +237,7 @@ def g_place(ci):
             n = len(nbrs)
             a = vec("a")
             CUR["a"] = a
-            P = [vec(f"n{i}_") for i in range(n)]
+            P = [vec(f"n{i}_") for i in range(n)] if offsets is None else [a + np.array(o, dtype=object) for o in offsets]
             s = SymStructure([Atom(centre)] + [Atom(e) for e in nbrs], coords=np.array([a] + P, dtype=object).reshape((n + 1, 3)))
             for i in range(n):
                 s.connect(0, i + 1)
@@ -255,7 +277,7 @@ def g_place(ci):
                     t = [Fraction(float(x)) for x in TETRAHEDRON[h - n - 1 + (1 if hs == 3 else 0)]]
                     tt = sum(x * x for x in t)
                     fL = Fraction(float(L))
-                    goals += [(f"{label}: H{h} at the sum of covalent radii times |tetrahedron vertex| (exact)", E(d @ d) != sr.lift(fL * fL * tt)) if n else
+                    goals += [(f"{label}: H{h} at the sum of covalent radii times |tetrahedron vertex| (exact)", E(d @ d) != sr.lift(fL * fL * tt)) if (n and offsets is None) else
                               (f"{label}: H{h} at the sum of covalent radii (1e-3)", z3.Or(E(d @ d) < sr.lift((0.999 * L) ** 2), E(d @ d) > sr.lift((1.001 * L) ** 2))),
                               (f"{label}: tetrahedron vertex {h - n - 1} is a unit vector to 1e-3", z3.BoolVal(abs(float(tt) - 1) > 1e-3))]
                 if n:
@@ -269,12 +291,13 @@ def g_place(ci):
 
 
 def replay_place(ci):
-    label, centre, nbrs, hs = CASES[ci]
+    label, centre, nbrs, hs = CASES[ci][:4]
+    offsets = CASES[ci][4] if len(CASES[ci]) > 4 else None
 
     def rp(goal, model, path):
         n = len(nbrs)
         a = np.array([sr.fval(model, f"a{k}") for k in range(3)])
-        P = [np.array([sr.fval(model, f"n{i}_{k}") for k in range(3)]) for i in range(n)]
+        P = [np.array([sr.fval(model, f"n{i}_{k}") for k in range(3)]) for i in range(n)] if offsets is None else [a + np.array(o) for o in offsets]
         s = Structure([Atom(centre)] + [Atom(e) for e in nbrs], coords=np.array([a] + P, dtype=float).reshape((n + 1, 3)))
         for i in range(n):
             s.connect(0, i + 1)
